@@ -1,5 +1,5 @@
 import itertools, os, sys
-from vf import Check, Stream, TieBroken, run_sharded, BUILD
+from vf import Check, Stream, TieBroken, run_sharded, run_exe_on_cases, first_diff, BUILD
 sys.path.insert(0, os.path.join(os.path.dirname(os.path.abspath(__file__)), '..', 'gen'))
 import tables_callback
 
@@ -35,6 +35,10 @@ def act(rng, ne, nl, nsg, nslot, p_emit=0.2, p_destroy=0.12):
 ALPHA = ['c 0 0 0 0', 'd 0 0 0 0', 'c 0 0 1 1', 'd 0 0 1 1', 'c 0 0 0 2', 'd 0 0 0 2',
          'e 0 0', 'xl 0', 'xl 1', 'xe 0', 'c 1 0 1 1', 'e 1 0']
 POST = ['e 0 0', 'd 0 0 0 0', 'e 0 0', 'xl 0', 'e 0 0', 'e 1 0', 'xl 1', 'e 0 0', 'xe 0', 'xe 1']
+# emitters die first: ~Emitter has to clear the listeners' entries, ~Listener then finds nothing to unlink
+POST_EF = ['e 0 0', 'd 0 0 0 0', 'e 0 0', 'xe 0', 'e 0 0', 'e 1 0', 'xl 0', 'e 1 0', 'xe 1', 'xl 1']
+# what slot 0.0 may do in the three-signal programs
+ALPHA3 = ['c 0 2 1 1', 'd 0 2 1 1', 'e 0 2', 'e 0 1', 'c 0 1 0 2', 'd 0 0 1 1', 'xe 0', 'xl 1', 'c 1 2 0 0', 'e 1 2']
 
 
 class C12(Check):
@@ -45,12 +49,18 @@ class C12(Check):
     per_case_timeout = 10
     technique = ('machine-checked proof in Coq about a hand-written Gallina model; model tied to the code by an '
                  'extracted-model vs implementation correspondence check')
-    level_text = ('Coq theorems (23, closed under the global context) about the Gallina model of Callback (slot lists with '
+    level_text = ('Coq theorems (26, closed under the global context) about the Gallina model of Callback (slot lists with '
                   'connected/connecting/disconnected states, dirty flag, activation chain with invalidation, both search loops, '
                   'both destructor loops, a liveness flag on every object) and the reference object (live connections with serial '
                   'numbers, watermark of the outermost emission, one cursor per emission), for ALL histories of '
-                  'connect/disconnect/emit/destroy, all slot scripts (universally quantified; a script may connect, disconnect, '
-                  're-emit, destroy listeners and emitters, itself included), every nesting depth limit and every fuel: '
+                  'connect/disconnect/emit/destroy, all slot behaviours WITH MEMORY (universally quantified functions of the invocation '
+                  'log of the operation in progress and of the logs of all earlier top-level operations: a slot may act differently at '
+                  'its second invocation, count, react to other slots; a script may connect, disconnect, re-emit, destroy listeners and '
+                  'emitters, itself included), every nesting depth limit and every fuel; which of several IDENTICAL connections a '
+                  'disconnect cancels is left open by the property text, so the reference object takes it as a policy parameter: the '
+                  'theorems about the reference object alone hold for every policy (C12_reference_*, C12_fuel_irrelevant_reference, '
+                  'C12_disconnect_any_choice_removes_one: any choice removes exactly one matching connection and nothing else), the '
+                  'refinement theorems are stated for the policy of the code, the oldest (C12_code_policy_is_oldest): '
                   '(1) refinement relation R holds initially and after every top-level operation and whenever a slot returns '
                   '(C12_refinement_init, C12_step_refines, C12_nested_refines); R implies both sides\' bookkeeping equals the live '
                   'connections: emitter side = connection list in order, listener side = same multiplicities, receivers alive, '
@@ -76,11 +86,22 @@ class C12(Check):
                   'non-zero offset, and on every run the nine hand-copied emit, connect, disconnect and MemberFuncPtr<N> definitions '
                   'of Callback.hpp are re-read and compared token by token with the one template the model mirrors written out for '
                   'each arity (gen/tables_callback.py; a difference is reported naming the overload and the streams of that arity '
-                  'are searched first for a failing input).')
+                  'are searched first for a failing input); the untyped struct MemberFuncPtr (converting constructor copying sizeof(ptr) '
+                  'bytes, ==, <, >) is compared with its expected text as well. The typed front ends are also instantiated with '
+                  'template parameters V != X and W != Y: listeners that are objects of a class with the slot\'s class as a NON-FIRST base '
+                  '(data in both bases) connected through the base\'s slot pointers or through slot pointers cast to the derived class '
+                  '(member pointers with a non-zero this-adjustment), emitters handed over as pointer to a derived class; every slot '
+                  'checks the identity fields of the sub-object it runs on. The property oracle (judge) accepts every behaviour of '
+                  'the reference object under SOME choice among identical connections (the driver explores the whole choice tree of '
+                  'a case); the exact policy of the code is compared in the model correspondence only.')
     level_note = ('Trusted: Coq kernel, the reference object (CallbackSpec.v: the property text as an executable object), extraction + '
                   'OCaml driver, harness, generators. Validated by correspondence only (not proved): that CallbackModel.v mirrors '
                   'Callback.hpp/Callback.cpp; the iterator position inside emit() is not observable from the harness (only its '
-                  'effect, the invocation log). Modelled as input: slot behaviours (scripts) and the client-side depth limit maxd '
+                  'effect, the invocation log). Follows the code, not the text: of several identical connections the MODEL cancels '
+                  'the oldest (the reference object and the judge accept any one; a tree that cancels another one is reported as '
+                  'no-failing-input-found through the correspondence). Modelled as input: slot behaviours (functions of the '
+                  'invocation history; the harness realises them as scripts with per-slot invocation counters, `def l s @k action`) '
+                  'and the client-side depth limit maxd '
                   '(emissions nested deeper are skipped by the client on both sides; without it a self-re-emitting slot recurses '
                   'forever in the library as well). Clients never hand a destroyed emitter/listener to the library (such script '
                   'actions are skipped on both sides). Maps keyed by pointer are modelled as maps keyed by object id; the '
@@ -94,7 +115,11 @@ class C12(Check):
                   '(arities 0..8) and textually tied to one template by the translator; the argument types used are int and long by '
                   'value only (no references, no class-type arguments with copy constructors). The harness classes are not '
                   'polymorphic (the library calls the slot through a pointer of the EMITTER\'s class type cast from void*, which '
-                  'UBSan\'s vptr check would flag for polymorphic client classes independently of this property).')
+                  'UBSan\'s vptr check would flag for polymorphic client classes independently of this property); hence no virtual '
+                  'slot is driven (member pointers to virtual functions only reach MemberFuncPtr through the textual tie). '
+                  'Bounds of the generated programs: <= 3 emitters / listeners, <= 3 signals per emitter, nesting depth <= 4, '
+                  '<= 200 slot invocations per program; a case whose tree of choices among identical connections exceeds 96 runs '
+                  'and matches no explored leaf is not judged (none occurs in the streams).')
     rule = ('cases = programs over 2-3 emitters x 2-3 listeners x up to 4 slots x 1-2 signals (each signal index with a chosen '
             'number of arguments 0..8; the exhaustive streams exh/dcd/nest are generated once per arity, nest with two different '
             'arities on one emitter; an arity flagged by the translator tie is run first) whose slots run scripted actions '
@@ -107,13 +132,22 @@ class C12(Check):
             'nested emission, actor words of length <= 2 / <= 3 over a 12-action alphabet (destroy listener / emitter / '
             'disconnect / connect / emit) run innermost first, 2 slot orders, 2 depth limits (case splits of emit_end, '
             'invalidated and both destructors); stream random = random scripts and top-level histories; stream edge = actions on '
-            'destroyed objects, unknown signals, disconnect of never-connected slots, duplicate connections. A case is '
+            'destroyed objects, unknown signals, disconnect of never-connected slots, duplicate connections; stream mi (per arity) = '
+            'exh length 1 + dcd length <= 3 + nest length 1 with listeners / emitters that are non-first bases of the connected '
+            'object (6 kind assignments, two per program); stream mem = slot 0.0 does A at its first and B at every later '
+            'invocation, all 144 pairs (case split of a slot with memory: first call vs later calls, nested vs top level); stream '
+            'dup = top-level words of length <= 5 with at least two identical connections and a disconnect of them, with and '
+            'without a slot that disconnects / re-connects it while emitting; stream sig3 = three signals of three arities on '
+            'one emitter, words of length <= 2 over a 10-action alphabet, listeners-first and emitters-first destruction (mem, dup, '
+            'sig3: arity by program index in the quick tier, every arity in the thorough tier); random scripts carry invocation '
+            'guards and random object kinds. A case is '
             'non-trivial when at least one slot with a non-empty script was invoked (re-entrancy actually exercised); distinct = '
             'distinct op text')
     assumptions = ['clients never pass a destroyed emitter or listener to connect/disconnect/emit (skipped in scripts)',
                    'no object is created at the address of a destroyed one while stale map keys exist',
                    'pointer-keyed maps modelled as id-keyed maps; destructor loops in id order (iterations are independent)',
-                   'slot behaviours are finite scripts; the client bounds the nesting depth of emissions (maxd)']
+                   'slot behaviours return finite scripts (as functions of the invocation history); the client bounds the nesting depth of emissions (maxd)',
+                   'which of several identical connections a disconnect cancels is not part of the property (any one is accepted)']
 
     suspects = []          # arities whose templates differ from the common template (set by gen_tables)
 
@@ -126,6 +160,49 @@ class C12(Check):
             raise TieBroken('%d of the hand-copied templates in Callback.hpp differ from the template CallbackModel.v mirrors: %s'
                             % (len(diffs), ' ;; '.join(m for (_, _, m) in diffs[:4])))
         return [summary]
+
+    def judge(self, cases, impl_obs, spec_obs):
+        """The reference object fixes everything except WHICH of several identical connections a disconnect cancels (the
+        property text is silent there).  A case that differs from the reference run under the code's policy (the oldest)
+        is therefore compared with every behaviour the reference object allows: the driver's `specall` mode explores the
+        whole tree of such choices (cut at 96 runs; a case whose tree is cut and has no matching leaf is not judged)."""
+        first = []
+        for i, (sp, o) in enumerate(zip(spec_obs, impl_obs)):
+            k = first_diff(sp, o)
+            if k is not None:
+                first.append((i, k))
+        if not first:
+            return []
+        sub = [cases[i] for i, _ in first]
+        alls = []
+        for j in range(0, len(sub), 200):
+            alls += run_exe_on_cases(self.exes['model'], sub[j:j + 200], os.path.join(BUILD, self.id, 'run'), 'specall', args=['specall'])[0]
+        fails = []
+        for (i, k), lines in zip(first, alls):
+            leaves, cut = {}, False
+            for l in lines:
+                if l == '~cap':
+                    cut = True
+                    continue
+                tag, _, rest = l.partition(' ')
+                leaves.setdefault(tag, []).append(rest)
+            if any(first_diff(lv, impl_obs[i]) is None for lv in leaves.values()):
+                continue            # one of the permitted behaviours: only the choice among identical connections differs
+            if cut:
+                continue
+            sp, o = spec_obs[i], impl_obs[i]
+            exp = sp[k] if k < len(sp) else '<nothing>'
+            got = o[k] if k < len(o) else '<nothing>'
+            if got.startswith('!'):
+                head = '[crash / abort in the library or a slot run on the wrong object: %s]' % got.split(' | ')[0]
+            elif exp.split(' | ')[0] != got.split(' | ')[0]:
+                head = '[the slots invoked differ from the reference object]'
+            else:
+                head = '[the bookkeeping (emitter / listener side lists) differs from the live connections]'
+            more = '' if len(leaves) <= 1 else ' (nor any of the %d behaviours allowed by the choice among identical connections)' % len(leaves)
+            fails.append((i, k, head.ljust(84, '.') + ' spec expects `%s`, implementation gives `%s`%s' % (exp, got, more)))
+        fails.sort(key=lambda f: len(cases[f[0]]))
+        return fails
 
     def nontrivial(self, case, obs):
         scripted = set()
@@ -155,6 +232,60 @@ class C12(Check):
                         c += ['def 1 1 d 0 0 0 0', 'def 1 1 c 0 0 0 0', 'def 0 2 e 0 0']
                         c += ['c 0 0 1 1', 'c 0 0 0 0', 'c 0 0 0 2', 'c 1 0 0 0']
                     c += POST
+                    cases.append(c)
+        return cases
+
+    def mem_cases(self):
+        """slots with memory: slot 0.0 does A at its first invocation and B at every later one, for every pair (A, B) of the
+        12-action alphabet, in the two surrounding configurations of exh; the programs emit several times (top level and
+        nested), half of them destroy the emitters before the listeners; a second slot acts only at its second invocation"""
+        cases = []
+        for variant in range(2):
+            for a in ALPHA:
+                for b in ALPHA:
+                    c = ['@2 2 1 3', 'def 0 0 @1 ' + a, 'def 0 0 @2+ ' + b]
+                    if variant == 0:
+                        c += ['def 0 2 @2 d 0 0 1 1', 'def 1 1 @2 e 0 0']
+                        c += ['c 0 0 0 0', 'c 0 0 1 1', 'c 1 0 0 2', 'c 0 0 0 2']
+                    else:
+                        c += ['def 1 1 @1 d 0 0 0 0', 'def 1 1 @2 c 0 0 0 0', 'def 0 2 @1 e 0 0', 'def 0 2 @3+ xl 1']
+                        c += ['c 0 0 1 1', 'c 0 0 0 0', 'c 0 0 0 2', 'c 1 0 0 0']
+                    c += ['e 0 0', 'e 0 0', 'c 0 0 0 0'] + (POST if (len(cases) // 2) % 2 == 0 else POST_EF)
+                    cases.append(c)
+        return cases
+
+    def dup_cases(self):
+        """identical connections: every top-level word of length <= 5 over {connect a, connect b, disconnect a, disconnect b,
+        emit} with at least two `connect a` and one `disconnect a`, a = slot 0.0, b = slot 1.1; in half of the programs slot
+        1.1 disconnects a and connects it again while the signal is emitting (entries marked, not removed).  The reference
+        object leaves open WHICH of the identical connections goes: these programs keep the rest of the clause pinned
+        (exactly one goes, on both sides; the others keep their order)."""
+        letters = ['c 0 0 0 0', 'c 0 0 1 1', 'd 0 0 0 0', 'd 0 0 1 1', 'e 0 0']
+        cases = []
+        for n in range(3, 6):
+            for w in itertools.product(letters, repeat=n):
+                if w.count('c 0 0 0 0') < 2 or 'd 0 0 0 0' not in w or w.index('d 0 0 0 0') < 2:
+                    continue
+                for variant in range(2):
+                    c = ['@2 2 1 2']
+                    if variant:
+                        c += ['def 1 1 d 0 0 0 0', 'def 1 1 @2 c 0 0 0 0']
+                    c += list(w) + ['e 0 0', 'd 0 0 0 0', 'e 0 0', 'xl 0', 'e 0 0']
+                    cases.append(c)
+        return cases
+
+    def sig3_cases(self):
+        """three signals on one emitter (three entries in the emitter's map, three activations of different emit templates
+        at once), slot 0.0 runs every word of length <= 2 over a 10-action alphabet; listeners-first and emitters-first
+        destruction at the end"""
+        cases = []
+        for n in range(1, 3):
+            for w in itertools.product(ALPHA3, repeat=n):
+                for ef in (0, 1):
+                    c = ['@2 2 3 3'] + ['def 0 0 ' + a for a in w] + ['def 0 2 e 0 0', 'def 1 1 @2 e 0 1']
+                    c += ['c 0 0 0 0', 'c 0 0 1 1', 'c 0 1 1 1', 'c 0 2 1 1', 'c 0 2 0 2', 'c 1 2 1 1', 'c 0 1 0 0']
+                    c += ['e 0 0', 'e 0 2', 'e 0 1']
+                    c += ['xe 0', 'e 1 2', 'xl 0', 'e 1 2', 'xe 1', 'xl 1'] if ef else ['xl 0', 'e 0 2', 'e 1 2', 'xl 1', 'e 0 1', 'xe 0', 'xe 1']
                     cases.append(c)
         return cases
 
@@ -213,7 +344,8 @@ class C12(Check):
                     a = act(rng, ne, nl, nsg, nslot, p_emit=0.22 if emits_left > 0 else 0.0)
                     if a.startswith('e '):
                         emits_left -= 1
-                    c.append('def %d %d %s' % (l, s, a))
+                    g = rng.choice(['', '', '', '@1 ', '@2 ', '@2+ ', '@3+ '])
+                    c.append('def %d %d %s%s' % (l, s, g, a))
         # top level: mostly connects first, then a mix
         for _ in range(rng.randrange(3, 8)):
             c.append('c %d %d %d %d' % (rng.randrange(ne), rng.randrange(nsg), rng.randrange(nl), rng.randrange(nslot)))
@@ -301,6 +433,19 @@ class C12(Check):
                     mic += with_arity([c], str(ar) if c[0].split()[2] == '1' else '%d%d' % (ar, (ar + 4) % 9), kk)
             out += chunks('mi-' + tag, mic,
                           'signals with %d arguments, listeners / emitters that are non-first bases of the connected object (template parameters W != Y, V != X; slot pointers cast to the derived class): exh length 1, dcd length <= 3, nest length 1, two kind assignments each' % ar)
+        # slots with memory, identical connections, three signals: every program with one arity (all nine in the thorough tier)
+        for name, gen, note in (('mem', self.mem_cases, 'slots with memory (`def l s @k action`): slot 0.0 does A at its first and B at every later invocation, all 144 pairs over the 12-action alphabet, 2 surrounding configurations, listeners-first / emitters-first destruction'),
+                                ('dup', self.dup_cases, 'identical connections: top-level words of length <= 5 over {connect a, connect b, disconnect a, disconnect b, emit} with >= 2 connect a and a disconnect a, with and without a slot that disconnects / re-connects a while emitting'),
+                                ('sig3', self.sig3_cases, 'three signals on one emitter with three different arities, words of length <= 2 over a 10-action alphabet, listeners-first / emitters-first destruction')):
+            cs = gen() if name == 'dup' else self.small_enough(gen())
+            ars = range(9) if thorough else [None]
+            for a0 in ars:
+                part = []
+                for i, c in enumerate(cs):
+                    ar = (i % 9) if a0 is None else a0
+                    arr = '%d%d%d' % (ar, (ar + 3) % 9, (ar + 6) % 9) if name == 'sig3' else str(ar)
+                    part += with_arity([c], arr, KINDS[i % len(KINDS)] if i % 3 == 2 else '')
+                out += chunks(name if a0 is None else '%s-a%d' % (name, a0), part, note)
         def rand_ar():
             pool = self.suspects * 3 + list(range(9))
             return ''.join(str(rng.choice(pool)) for _ in range(3))
